@@ -103,3 +103,116 @@ Theorem trie_unrepaired_index_out_of_bounds : forall c, 128 <= c <= 255 ->
   index_in_range (byte_index_unrepaired c) = false.
 Proof. exact byte_index_unrepaired_oob. Qed.
 Print Assumptions trie_unrepaired_index_out_of_bounds.
+
+(* ====================================================================== *)
+(* Heap level (C09/ModelHeap.v): nodes are ids, the heap maps an id to a record
+   with the fields of the C structs, and every function performs the pointer
+   reads and writes of the C function in the same order.  [heap_rep s pt]: the
+   heap of s holds exactly the records of the id-decorated tree pt — left / right
+   are the children's ids, PARENT is the id one level up (NULL at the root) —
+   no id occurs twice, s.root points at pt's root.  [erase pt] is the functional
+   tree of Model.v. *)
+
+(* parent links are consistent wherever the representation holds *)
+Theorem havl_parent_links_consistent : forall s pt, heap_rep s pt ->
+  match hroot s with Some r => hp (hheap s r) = None /\ In r (ids pt) | None => pt = PLeaf end /\
+  forall x, In x (ids pt) ->
+    (forall c, hl (hheap s x) = Some c -> In c (ids pt) /\ hp (hheap s c) = Some x) /\
+    (forall c, hr (hheap s x) = Some c -> In c (ids pt) /\ hp (hheap s c) = Some x).
+Proof. exact heap_rep_links. Qed.
+Print Assumptions havl_parent_links_consistent.
+
+(* muggle_avl_tree_rebalance with the four rotations, as pointer programs: on a
+   subtree hanging below [par], the heap afterwards holds the rotated subtree
+   (same function as Model.rebalance, [erase_prebalance]) with every parent
+   pointer updated — the subtree root's, the moved inner subtrees' — the
+   parent's child link and tree->root redirected, and nothing else touched.
+   Dropping any parent assignment in ModelHeap.hrotate_* breaks this proof. *)
+Theorem havl_rebalance_refines : forall h root x l k v b r par,
+  let sub := PNode x l k v b r in
+  wf_at h sub par -> nodup (ids sub) -> (forall p, par = Some p -> ~ In p (ids sub)) ->
+  rot_ready sub -> (b < -1 \/ 1 < b) ->
+  exists h' n, pptr (fst (prebalance sub)) = Some n /\
+     hrebalance h root x = Some (h', reroot root x (Some n), snd (prebalance sub)) /\
+     wf_at h' (fst (prebalance sub)) par /\ (forall w, ~ In w (ids sub) -> h' w = relink h par x (Some n) w).
+Proof. exact hrebalance_ok. Qed.
+Print Assumptions havl_rebalance_refines.
+
+Theorem havl_rebalance_is_model : forall t,
+  erase (fst (prebalance t)) = fst (rebalance (erase t)) /\ snd (prebalance t) = snd (rebalance (erase t)).
+Proof. exact erase_prebalance. Qed.
+Print Assumptions havl_rebalance_is_model.
+
+(* muggle_avl_tree_insert as a pointer program (descent, allocation and linking
+   of the new node, retracing upward THROUGH THE PARENT LINKS, rebalance): never
+   stuck, returns what the functional model returns, and the heap afterwards
+   represents the functional model's tree with consistent parent links. *)
+Theorem havl_insert_refines : forall s pt x xv,
+  heap_rep s pt -> bal (erase pt) ->
+  exists s' pt', havl_insert s x xv = Some (s', snd (avl_insert x xv (erase pt))) /\
+    heap_rep s' pt' /\ erase pt' = fst (avl_insert x xv (erase pt)).
+Proof. exact havl_insert_ok. Qed.
+Print Assumptions havl_insert_refines.
+
+(* FULL STATEMENT (not proved): for every history ops of insert / find / remove,
+     exists s pt, hrun havl_step havl_init ops = Some (s, snd (run avl_step Leaf ops)) /\
+                  heap_rep s pt /\ erase pt = fst (run avl_step Leaf ops).
+   PROVED: the same for histories without removals (below), and for removals the
+   two theorems that follow.  MISSING: that the key/value swap loop of
+   muggle_avl_tree_remove ("move data into leaf", which writes no pointer) picks
+   the data the functional model's [rem] picks; the model driver cross-checks
+   the heap program against the functional model on every short generated case. *)
+Theorem havl_refines_map_partial : forall ops s pt,
+  heap_rep s pt -> avl_inv (erase pt) -> Forall no_rem ops ->
+  exists s' pt', hrun havl_step s ops = Some (s', snd (run avl_step (erase pt) ops)) /\
+    heap_rep s' pt' /\ erase pt' = fst (run avl_step (erase pt) ops).
+Proof. exact havl_history_partial. Qed.
+Print Assumptions havl_refines_map_partial.
+
+(* the retracing loop of muggle_avl_tree_remove (balance updates, rotations that
+   continue upward while the depth decreases, navigation through the parent
+   links), started at the node on top of the path (f :: ctx) whose subtree t in
+   the hole has lost one level: the heap afterwards represents the functional
+   unwinding [punwind_rem] (= the chain of Model.shrink_if, [rem_plug]). *)
+Theorem havl_remove_retrace_refines : forall ctx f t h root fuel hold,
+  wf_at h (plug (f :: ctx) t) None -> nodup (ids (plug (f :: ctx) t)) -> root = pptr (plug (f :: ctx) t) ->
+  (length ctx < fuel)%nat ->
+  bal (erase t) -> height (erase t) = hold - 1 -> ctx_ok (f :: ctx) hold ->
+  exists h', hretrace_rem fuel h root (Some (fid f)) (fside f) = Some (h', pptr (punwind_rem (f :: ctx) t true)) /\
+     wf_at h' (punwind_rem (f :: ctx) t true) None.
+Proof. exact hretrace_rem_ok. Qed.
+Print Assumptions havl_remove_retrace_refines.
+
+(* muggle_avl_tree_remove of a node that is a leaf (no data to move): unlink from
+   the parent, retrace; the result represents the functional model's tree. *)
+Theorem havl_remove_leaf_refines : forall s ctx m k v b,
+  let leaf := PNode m PLeaf k v b PLeaf in
+  heap_rep s (plug ctx leaf) -> bal (erase (plug ctx leaf)) ->
+  exists s', havl_remove s m = Some s' /\ heap_rep s' (punwind_rem ctx PLeaf true) /\
+    (path_for k ctx -> erase (punwind_rem ctx PLeaf true) = fst (fst (rem (ByKey k) (erase (plug ctx leaf))))).
+Proof. exact havl_remove_leaf_ok. Qed.
+Print Assumptions havl_remove_leaf_refines.
+
+(* Hash table at heap level: array of sentinel heads, chain nodes with prev/next.
+   [ht_rep hash t ft ch]: bucket i's chain is the node list ch i, linked
+   head -> n1 -> n2 ... with every prev pointing back, it reads as the functional
+   bucket, every node hangs in the bucket its key hashes to, no node is shared.
+   Every history (put / find / remove, any hash function, any table size) runs
+   without getting stuck, answers like the functional table and keeps ht_rep. *)
+Theorem hht_refines_map : forall hash table_size ops,
+  exists t' ch', hrun (hht_step hash) (hht_init table_size) ops =
+                   Some (t', snd (run (ht_step hash) (ht_init table_size) ops)) /\
+    ht_rep hash t' (fst (run (ht_step hash) (ht_init table_size) ops)) ch'.
+Proof. intros hash ts ops. exact (hht_history hash ops _ _ _ (hht_init_rep hash ts)). Qed.
+Print Assumptions hht_refines_map.
+
+(* prev/next consistency and bucket membership, read off the representation *)
+Theorem hht_links_consistent : forall hash t ft ch, ht_rep hash t ft ch ->
+  forall i, (Z.of_nat i < th_size t) ->
+    (forall y, th_heads t i = Some y -> cprev (th_nodes t y) = Some (LHead i)) /\
+    (forall e, In e (ch i) ->
+       (exists p, cprev (th_nodes t (eid e)) = Some p) /\
+       (forall y, cnext (th_nodes t (eid e)) = Some y -> cprev (th_nodes t y) = Some (LNode (eid e))) /\
+       hht_idx hash t (ckey (th_nodes t (eid e))) = i).
+Proof. exact ht_rep_links. Qed.
+Print Assumptions hht_links_consistent.
